@@ -148,10 +148,11 @@ def run(ctx):
     return [pC20.rule_order(ctx), pC20.rule_once(ctx), pC20.rule_let_order(ctx), pC20.rule_drop(ctx), flatpar.rule_flat(ctx),
             sC20.rule_paste(ctx), sC20.rule_stack(ctx), sC20.rule_hoist(ctx),
             sC20.rule_rewrite(ctx, 'main', floor=200), sC20.rule_inplace(ctx, 'main', floor=10), sC20.rule_short(ctx), sC20.rule_listdir(ctx), sC20.rule_kwmap(ctx, 'main', floor=150),
-            sC20.rule_rewrite(ctx, 'cross-order', floor=200)]
+            sC20.rule_rewrite(ctx, 'cross-order', floor=200), sC20.rule_kwmap(ctx, 'routing', floor=150)]
     # armed after the repair b8df1e725 (FINDING_2 of session s4-G5): sC20.rule_rewrite(ctx, 'cross-order', floor=200) -> C20-REWRITE-XORDER reports
     #   ParseTreeTransforms.PostParse._visit_assignment_node:cross-order on the unmodified tree: `a1, b1 = a2, *s2 = f(), g()` calls g before f.
-    # pending finding (FINDING_3 of session s4-G5): sC20.rule_inplace(ctx, 'read-once', floor=10) -> C20-INPLACE-READONCE reports
+    # NOT registered (FINDING_3 of session s4-G5, partially repaired by 43f76656b: Python-level lookups are evaluated once now; the rule's model does not know
+    #   `obj.result_in_temp()` and still reports C-level re-reads, which are only observable if the right-hand side rebinds the object): sC20.rule_inplace(ctx, 'read-once', floor=10) -> C20-INPLACE-READONCE reports
     #   ParseTreeTransforms.ExpandInplaceOperators.visit_InPlaceAssignmentNode:read-once: `o.a.b += 1` reads o.a twice, `f()[g()].a += 1` calls __getitem__ twice.
-    # pending finding (FINDING_4 of session s4-G5): sC20.rule_kwmap(ctx, 'routing', floor=150) -> C20-KWMAP-ROUTING reports
+    # armed after the repair 15007ed16 (FINDING_4 of session s4-G5): sC20.rule_kwmap(ctx, 'routing', floor=150) -> C20-KWMAP-ROUTING reports
     #   ExprNodes.GeneralCallNode.map_to_simple_call_node:routing: `cfunc(f0(), p2=f2(), p1=n1)` drops the argument p2 (the C default / a wrong arity is used).
